@@ -38,7 +38,7 @@ ASSUMPTIONS = [
     "stream ids (uuid4) are unique and unguessable: the model numbers streams by order of creation, and histories only name ids that exist (or one id that never exists)",
     "each daemon operation (get_next_stream_item, close_stream, _clientDisconnect, _housekeeping) is an atomic step; races of the housekeeper thread inside a running get_next_stream_item are not modelled",
     "oneway close_stream calls are joined before the next step (the daemon runs them in a thread of their own), except in `relrace` steps, where a close_stream / housekeeping run is interleaved into Daemon._clientDisconnect at a chosen preemption point",
-    "preemption points inside _clientDisconnect are the reads of the stream table and the time.time() calls; one entry's re-read + write is taken as atomic: the other thread closing / reaping that very entry between its re-read and its write is not explored (in the unmodified code that narrow window exists and would re-insert the closed stream as lingering)",
+    "preemption points inside _clientDisconnect are the reads of the stream table and the time.time() calls, all schedulable, including the one between an entry's re-read and its write-back; where the other thread got in (which entry's window was open) is observed and given to the model",
     "proxies run with _pyroMaxRetries 0, 1 or 2: stream item fetches are not idempotent and must not be retried",
     "time is whole seconds on a virtual clock (time.time as seen by Pyro5.server); the clock never reads 0",
     "transport failures are injected in the middle of next() only (request lost / reply lost, then the proxy releases its connection); an item whose reply is lost in transit is gone (at-most-once), and the model says so; stale/delayed replies belong to C03",
@@ -48,6 +48,7 @@ IMPORTS = "From V Require Import Model.Streams Gen.GenStreams Harness.Cmp Harnes
 T0 = 1000
 ERR_CLASSES = ["ValueError", "KeyError", "ZeroDivisionError", "RuntimeError"]
 BOGUS = 999999
+KNOWN_RACE = "closed-stream-relingered-in-reread-window"
 REQ_LOST = ("drop_request", "reset_before")
 REPLY_LOST = ("drop_reply", "reset_after", "cut_reply")
 
@@ -159,40 +160,46 @@ def join_oneways():
             t.join(5)
 
 
-RACE = {"in_disc": 0, "armed": None, "count": 0, "k": 0, "open_key": None, "victim": None}
+RACE = {"in_disc": 0, "armed": None, "count": 0, "k": 0, "open_key": None, "win": None}
 
 
-def _race_point(key=None, clock=False):
-    """a preemption point inside Daemon._clientDisconnect: run the pending inner action at the k-th one.
-    An entry's window is open from its re-read to its write; the other thread acting on that very entry inside
-    that window (possible in the unmodified code too, see ASSUMPTIONS) is not explored: such a point is skipped."""
-    if not RACE["in_disc"]:
-        return
-    if key is not None:
-        RACE["open_key"] = key
-    if RACE["armed"] is None:
-        return
-    if clock and RACE["open_key"] is not None and RACE["victim"] in (None, RACE["open_key"]):
+def _race_point():
+    """a preemption point inside Daemon._clientDisconnect: the pending inner action runs at the k-th one.  Where it
+    ran is recorded: RACE["win"] = the entry whose window is open (re-read done, write-back not yet) at that moment."""
+    if not RACE["in_disc"] or RACE["armed"] is None:
         return
     RACE["count"] += 1
     if RACE["count"] >= RACE["k"]:
         fn, RACE["armed"] = RACE["armed"], None
+        RACE["win"] = RACE["open_key"]
         fn()
 
 
+def _opened(k):
+    if RACE["in_disc"]:
+        RACE["open_key"] = k
+
+
 class HookDict(dict):
-    """the daemon's stream table with a preemption point at every read access"""
+    """the daemon's stream table with a preemption point before every read access; after a keyed read that entry's
+    window is open until the next write to the table"""
     def get(self, k, *a):
-        _race_point(k)
-        return dict.get(self, k, *a)
+        _race_point()
+        v = dict.get(self, k, *a)
+        _opened(k)
+        return v
 
     def __getitem__(self, k):
-        _race_point(k)
-        return dict.__getitem__(self, k)
+        _race_point()
+        v = dict.__getitem__(self, k)
+        _opened(k)
+        return v
 
     def __contains__(self, k):
-        _race_point(k)
-        return dict.__contains__(self, k)
+        _race_point()
+        v = dict.__contains__(self, k)
+        _opened(k)
+        return v
 
     def __iter__(self):
         _race_point()
@@ -228,7 +235,7 @@ def _hook_clock():
 
     class HookClock(loopback.VirtualClock):
         def time(self):
-            _race_point(clock=True)
+            _race_point()
             return self.now
     return HookClock
 
@@ -249,7 +256,7 @@ def run_impl(case):
     eff = {"streaming": bool(config.ITER_STREAMING), "lifetime": config.ITER_STREAM_LIFETIME, "linger": config.ITER_STREAM_LINGER}
     d, src, uri = _daemon()
     d.streaming_responses = HookDict()
-    RACE.update(in_disc=0, armed=None, count=0, k=0, open_key=None, victim=None)
+    RACE.update(in_disc=0, armed=None, count=0, k=0, open_key=None, win=None)
     out = {"cfg": eff, "steps": [], "error": None}
     proxies, iters, sids = [], [], []      # sids[ordinal] = uuid string or None
     try:
@@ -294,6 +301,7 @@ def run_impl(case):
             for op in case["ops"]:
                 k = op[0]
                 nconn = net._next
+                race_win = None
                 try:
                     if k == "open":
                         _, p, how, items = op
@@ -356,17 +364,18 @@ def run_impl(case):
                                 o = inner[1]
                                 sid = bogus_id if (o < 0 or o >= len(sids) or sids[o] is None) else sids[o]
                                 fn = lambda sid=sid: d.objectsById[core.DAEMON_NAME].close_stream(sid)
-                                victim = sid
                             else:
                                 fn = d._housekeeping
-                                victim = None
-                            RACE.update(armed=fn, count=0, k=kk, open_key=None, victim=victim)
+                            RACE.update(armed=fn, count=0, k=kk, open_key=None, win=None)
                             try:
                                 proxies[p]._pyroRelease()
                             finally:
                                 fn2, RACE["armed"] = RACE["armed"], None
                             if fn2 is not None:
+                                RACE["win"] = None
                                 fn2()        # the handler had fewer preemption points: the other thread runs right after it
+                            w = RACE["win"]
+                            race_win = sids.index(w) if w in sids else None
                         resp = ["none", 0]
                     elif k == "reconnect":
                         proxies[op[1]]._pyroReconnect(tries=1)
@@ -395,7 +404,7 @@ def run_impl(case):
                         raise ValueError("unknown op %r" % (op,))
                 except Exception as x:       # the driver itself failed: outside the model's vocabulary
                     resp = ["other:driver:" + type(x).__name__, 0]
-                out["steps"].append({"resp": resp, "table": table(), "conns": net._next - nconn})
+                out["steps"].append({"resp": resp, "table": table(), "conns": net._next - nconn, "win": race_win})
             # quiescence: every connection ends, the linger period passes, one housekeeping step
             for it in iters:
                 it.proxy = None           # no close traffic from __del__ after the transport is gone
@@ -649,8 +658,11 @@ def oracle(case, obs):
         elif k == "relrace":
             _, p, kk, inner = op
             if pconn[p] is not None:
-                # whatever the interleaving, the outcome is that of the other thread's action and the disconnect, in
+                # whatever the interleaving, the outcome must be that of the other thread's action and the disconnect, in
                 # either order: a stream closed / reaped meanwhile stays forgotten, the others linger or go
+                w = st.get("win")
+                wstream = streams[w] if (w is not None and 0 <= w < len(streams)) else None
+                in_window = (wstream is not None and wstream["state"] != "dead" and wstream["owner"] == pconn[p])
                 if inner[0] == "close":
                     o = inner[1]
                     if 0 <= o < len(streams) and streams[o] is not None:
@@ -659,6 +671,12 @@ def oracle(case, obs):
                     housekeep()
                 disconnect(pconn[p])
                 pconn[p] = None
+                if in_window and wstream["state"] == "dead" and w in {row[0] for row in st["table"]}:
+                    # the other thread removed exactly the entry that the disconnect loop had re-read and not yet written
+                    # back; the write-back resurrected it (known open finding).  Go on from the state the daemon is in.
+                    flag(KNOWN_RACE, "after step %d %r the server again holds stream %d as lingering: it was removed (%s) by another daemon thread "
+                         "between _clientDisconnect's re-read of that entry and its write-back" % (i, op, w, wstream["why"]))
+                    wstream["state"], wstream["why"], wstream["owner"], wstream["linger_since"] = "alive", "", None, now
         elif k == "hk":
             housekeep()
         if False:
@@ -700,11 +718,12 @@ def c_item(it):
     return ("Yield %s" if it[0] == "y" else "Raise %s") % cN(it[1])
 
 
-def c_hop(op):
+def c_hop(op, st=None):
     if op[0] == "relrace":
         inner = op[3]
         ev = "Housekeep" if inner[0] == "hk" else "CloseStream 0%%N %s" % cN(inner[1] if inner[1] >= 0 else BOGUS)
-        return "HRace %s (%s)" % (cN(op[1]), ev)
+        w = st.get("win") if st else None
+        return "HRace %s (%s) %s" % (cN(op[1]), ev, "None" if w is None else "(Some %s)" % cN(w))
     return "HOp (%s)" % c_op(op)
 
 
@@ -770,7 +789,7 @@ def c_case(case, obs):
     steps = clist(["(%s, %s)" % (c_resp(st["resp"]), clist([c_row([r[0], r[1], as_int(r[2]), as_int(r[3])]) for r in st["table"]]))
                    for st in obs["steps"]])
     return "{| k_cfg := %s; k_nprox := %s; k_ops := %s; k_obs := %s; k_final := %s |}" % (
-        ccfg, cN(case["nprox"]), clist([c_hop(o) for o in case["ops"]]), steps, cN(obs["final_table"]))
+        ccfg, cN(case["nprox"]), clist([c_hop(o, st) for o, st in zip(case["ops"], obs["steps"])]), steps, cN(obs["final_table"]))
 
 
 # ---------------------------------------------------------------- generator
